@@ -30,11 +30,34 @@ def cases(draw, tier, override=None):
     if with_failures:
         go["p_fail"] = 30
     proj = draw(sgen.graphs(go))
+    directed = not override and not with_failures and draw(st.integers(0, 99)) < 20
+    if directed:
+        # directed family: a diamond over the out-of-band path.  a depends on the checksummed, gated c; x and y (and
+        # sometimes z) both ask for a; after a complete build and an edit, a is only MAYBE out of date, so the first
+        # requester settles c through redo-unlocked while holding a's lock -- and the other requesters arrive meanwhile
+        lossy = draw(st.integers(0, 1))
+        dof = {"c.do": {"v": 1, "body": [["dep", 0 if lossy else 1, ["s0"]], ["work", 1], ["out", "stdout"], ["stamp"]] +
+                        ([["work", 4]] if draw(st.integers(0, 1)) else [])},
+               "a.do": {"v": 1, "body": [["dep", 1, ["c"]]] + ([["work", 2]] if draw(st.integers(0, 1)) else []) +
+                        [["out", draw(st.sampled_from(["stdout", "file"]))]]}}
+        req = ["x", "y"] + (["z"] if draw(st.integers(0, 1)) else [])
+        for q in req:
+            body = [["dep", 1, ["s0"]]] if draw(st.integers(0, 2)) == 0 else []
+            if draw(st.integers(0, 1)):
+                body.append(["work", 0])
+            body += [["dep", 1, ["a"]], ["out", "stdout"]]
+            dof[q + ".do"] = {"v": 1, "body": body}
+        dof["top0.do"] = {"v": 1, "body": [["dep", 1, req], ["out", "stdout"]]}
+        proj = {"dirs": [""], "sources": ["s0"], "dofiles": dof, "targets": ["c", "a"] + req + ["top0"], "watch": [],
+                "layers": {"leaves": ["c"], "mids": ["a"] + req, "tops": ["top0"]}}
     L = proj["layers"]
     allt = L["tops"] + L["mids"] + L["leaves"]
     kind = draw(st.sampled_from(["redo", "redo", "ifchange"]))
     m = M.Model(proj)
     ts = sgen._subset(draw, L["tops"] + L["mids"], 1, 3)
+    if directed:
+        ts = ["top0"] if draw(st.integers(0, 1)) else list(req)
+        kind = "ifchange" if ts == ["top0"] or draw(st.integers(0, 1)) else "redo"
     if kind == "redo":
         ts = independent(m, ts)
     elif draw(st.integers(0, 99)) < 40:
@@ -48,18 +71,18 @@ def cases(draw, tier, override=None):
         env["REDO_LOG"] = "0"
     js = None
     if kind == "redo":
-        argv = ["redo", "-j%d" % draw(st.integers(1, 8))]
+        argv = ["redo", "-j%d" % draw(st.integers(3 if directed else 1, 8))]
         if draw(st.integers(0, 2)) == 0:
             argv.append("--shuffle")
         argv += ts
     else:
         argv = ["redo-ifchange"] + ts
-        js = {"tokens": draw(st.integers(0, 4)), "held": 0, "high": draw(st.integers(0, 1)) == 1}
+        js = {"tokens": draw(st.integers(2 if directed else 0, 4)), "held": 0, "high": draw(st.integers(0, 1)) == 1}
     fails = sorted({s_[1] for spec in proj["dofiles"].values() for s_ in spec["body"] if s_[0] == "failflag"})
     failing = [f for f in fails if draw(st.integers(0, 2)) > 0] if with_failures else []
     return {"project": proj, "invs": [{"argv": argv, "cwd": "", "env": env, "jobserver": js}], "targets": ts,
-            "failing": failing,
-            "kind": kind, "prebuild": draw(st.integers(0, 1)) == 1, "schedule": draw(sgen.schedule()),
+            "failing": failing, "directed": directed,
+            "kind": kind, "prebuild": True if directed else draw(st.integers(0, 1)) == 1, "schedule": draw(sgen.schedule()),
             "sopts": {"seed": draw(st.integers(0, 2 ** 31 - 1)), "coincide": draw(st.integers(0, 2)) > 0, "token_games": False,
                       "patient": draw(st.integers(0, 3)) == 0}}
 
@@ -110,6 +133,8 @@ def run_case(case, tier):
         if case.get("prebuild"):
             m.cmd_ifchange(ts)
             m.user_write("s0", P.source_content("s0", 1))
+        if case.get("directed"):
+            out.events["c07:directed-diamond-over-the-out-of-band-path"] += 1
         if case.get("failing"):
             m.failflags = set(case["failing"])
             out.events["c07:with-failing-scripts"] += 1
